@@ -28,7 +28,7 @@ DEFECTS = [d for d in trees.DEFECTS if d != "unreadable"]
 
 
 def generate(tier, seed):
-    n = 250 if tier == "quick" else 40000
+    n = 700 if tier == "quick" else 40000
     return [{"k": k} for k in range(n)]
 
 
